@@ -77,12 +77,19 @@ def gen_case(rng, idx, fixed_pairs=None):
         if rng.chance(1, 4):
             # anti-entropy also runs while clients are still writing: the trackers it leaves behind decide what later polls skip
             j = rng.below(n); i2 = (j + 1 + rng.below(n - 1)) % n
-            m = rng.below(3)
-            lines.append('repair %d %d %d' % (j, i2, m) if m < 2 else 'repairc %d %d' % (j, i2))
+            m = rng.below(4)
+            # m = 3: one round of the poller's PRODUCTION loop (repair_members) over all other nodes
+            lines.append('repair %d %d %d' % (j, i2, m) if m < 2 else 'repairc %d %d' % (j, i2) if m == 2 else 'repairm %d' % j)
         if rng.chance(1, 4): lines.append('read %d' % rng.below(n))
     # quiescence: every ordered pair completes an exchange (each covers every keyspace), late deliveries in between
     pairs = fixed_pairs if fixed_pairs is not None else rng.shuffle([(j, i) for j in range(n) for i in range(n) if i != j])
     pairs = [(j, i) for (j, i) in pairs if j < n and i < n]
+    if fixed_pairs is None and rng.chance(1, 3):
+        # quiescence through the production loop: every node's poller runs one round over all the others
+        for j in rng.shuffle(list(range(n))):
+            lines.append('repairm %d' % j)
+            lines.append('read %d' % j)
+        pairs = []
     for (j, i) in pairs:
         sp = rng.choice(spaces)
         if st[sp]['pending'] and rng.chance(1, 3):
@@ -214,7 +221,7 @@ def stats(verdicts):
     for v in verdicts:
         for l, o in zip(v['case'], v['impl']):
             k = l.split()[0]
-            if k in ('repair', 'repairc'): k = k + ':' + o.split()[0]
+            if k in ('repair', 'repairc', 'repairm'): k = k + ':' + o.split()[0]
             elif k == 'deliver' or k == 'batch': k = k + ':' + o
             d[k] = d.get(k, 0) + 1
         d['nodes%s' % v['case'][1].split()[1]] = d.get('nodes%s' % v['case'][1].split()[1], 0) + 1
